@@ -46,6 +46,10 @@ def corrupt(plugin, r, start, end, viol, dtype_name):
         r = r.copy()
         r["endtime"][-1] = end + 1
         return r
+    if viol == "rows_late_inner":       # an earlier, long row outlasts the chunk; the last row is fine (rows are sorted by start time)
+        r = r.copy()
+        r["endtime"][0] = end + 1
+        return r
     if viol == "wrong_label":
         return strax.Chunk(start=start, end=end, data=r, data_type="something_else", data_kind=plugin.data_kind_for(dtype_name),
                            dtype=plugin.dtype_for(dtype_name), run_id="0")
